@@ -58,6 +58,24 @@ Theorem c37_worker_model_accepted : forall cf, c_workers cf <> 0 ->
 Proof. exact WK.Proof.WorkQueue_worker.w_accepts. Qed.
 Print Assumptions c37_worker_model_accepted.
 
+(* Why Close publishes both flags in ONE q.mu critical section.  [ws_run] is the worker-queue
+   system with that section SPLIT (close(q.stop) first, closed = true under q.mu in a later
+   step — seeded change C37-b): a worker sees stop, drains the still-empty queue and exits; a
+   Submit whose critical section comes next still sees closed = false, enqueues and returns nil;
+   Close then finds workerWG at zero and returns nil.  The admitted task never runs: the monitor
+   is 1 (the worker queue has no known-finding code), while on the code's own step function the
+   same schedule gives 0 (and so does every schedule: c37_worker_model_satisfies_monitor). *)
+Definition c37_cfg_worker : cfg := Cfg KWorker 1 4 1 1 false false.
+Definition c37_split_schedule : list wev :=
+  [WCall 0 false; WCloseCall; WCloseStep; WWork 0 true; WWork 0 false; WStep 0 false; WCloseStep; WCloseStep].
+Theorem c37_worker_split_close_refuted :
+  let s := ws_run c37_cfg_worker c37_split_schedule in
+  map s_res (w_subs s) = [ROk] /\ w_runs s = [] /\ map l_ok (w_clos s) = [true]
+  /\ C37_monitor (w_hist c37_cfg_worker s) = 1
+  /\ C37_monitor (w_hist c37_cfg_worker (w_run c37_cfg_worker c37_split_schedule)) = 0.
+Proof. vm_compute. repeat split; reflexivity. Qed.
+Print Assumptions c37_worker_split_close_refuted.
+
 (* ================= BoundedPool / BoundedBatchPool ================= *)
 
 (* at most one terminal event per task: never run twice, never run and cancelled, never cancelled twice *)
